@@ -370,10 +370,19 @@ def run(prop, tier, replay=None):
                     cases += fam_opts(scripts, rnd, tier)
                 elif f.startswith("ws-"):
                     cases += fam_ws(rnd, tier, f[3:])
+            # the same gRPC cases once more through a real grpc-go client on a socket (those a real client can send)
+            plain = [c for c in cases if c["proto"] == "grpc" and not (c["sched"] or c["trunc"] or c["corrupt"] or c["eofwith"] or c["boundary"] or c["timeout"])]
+            if prop != "C18":
+                plain = rnd.sample(plain, min(len(plain), 500 if tier == "quick" else 20000))
+            for c in plain:
+                d = dict(c, proto="grpcsock")
+                if d.get("group"):
+                    d["group"] = "sock-" + str(d["group"])
+                cases.append(d)
             for i, c in enumerate(cases):
                 c["id"] = i + 1
                 # a third of the non-gRPC requests arrive over HTTP/2 (same for every member of an option group)
-                c.setdefault("h2", c["proto"] not in ("grpc", "ws") and (zlib.crc32(str(c.get("group")).encode()) if c.get("group") else i) % 3 == 1)
+                c.setdefault("h2", c["proto"] not in ("grpc", "ws", "grpcsock") and (zlib.crc32(str(c.get("group")).encode()) if c.get("group") else i) % 3 == 1)
         with open(cpath, "w") as f:
             for c in cases:
                 f.write(json.dumps(c) + "\n")
